@@ -230,6 +230,22 @@ fn c07_scenarios(thorough: bool) -> Vec<Scenario> {
             }
         }
     }
+    // A failure must be reported also when cancellation races with it.
+    for runner in ["mt", "st"] {
+        for fail_block in 0..3 {
+            for fail_call in 1..=2 {
+                v.push(Scenario::Run(RunParams {
+                    kind: "failcancel".into(),
+                    runner: runner.into(),
+                    infinite: true,
+                    src_len: 0,
+                    fail_block,
+                    fail_call,
+                    cancel_early: false,
+                }));
+            }
+        }
+    }
     let _ = thorough;
     v
 }
@@ -284,6 +300,7 @@ fn c03_scenarios(thorough: bool) -> Vec<Scenario> {
                             wneed_full: wf,
                             rneed_full: rf,
                             hold: true,
+                            tagged: false,
                         }));
                     }
                 }
@@ -300,8 +317,26 @@ fn c03_scenarios(thorough: bool) -> Vec<Scenario> {
         wneed_full: false,
         rneed_full: false,
         hold: true,
+        tagged: false,
     }));
     v
+}
+
+/// C02 under concurrency: the C03 scenarios with a tag on every sample.
+fn c02_scenarios(thorough: bool) -> Vec<Scenario> {
+    c03_scenarios(thorough)
+        .into_iter()
+        .filter_map(|s| match s {
+            Scenario::Pc(mut p) => {
+                if p.wneed_full {
+                    return None;
+                }
+                p.tagged = true;
+                Some(Scenario::Pc(p))
+            }
+            _ => None,
+        })
+        .collect()
 }
 
 fn c04_scenarios(_thorough: bool) -> Vec<Scenario> {
@@ -341,6 +376,7 @@ fn c04_scenarios(_thorough: bool) -> Vec<Scenario> {
 
 fn scenarios(prop: &str, thorough: bool) -> Vec<Scenario> {
     match prop {
+        "C02" => c02_scenarios(thorough),
         "C03" => c03_scenarios(thorough),
         "C04" => c04_scenarios(thorough),
         "C05" => c05_scenarios(thorough),
@@ -351,6 +387,8 @@ fn scenarios(prop: &str, thorough: bool) -> Vec<Scenario> {
 
 fn max_bound(prop: &str, thorough: bool) -> u32 {
     match (prop, thorough) {
+        ("C02", false) => 2,
+        ("C02", true) => 3,
         ("C03", false) => 2,
         ("C03", true) => 3,
         ("C04", false) => 2,
